@@ -624,7 +624,7 @@ func (p *pathCtx) prove(c *Term) (SatResult, map[string]uint64) {
 
 var crossBin = "z3"
 
-const crossCheckPerRun = 48
+const crossCheckPerRun = 16
 var crossChecked, crossDisagree, crossTimeout int64
 
 // crossCheck re-submits an unsat query to the second solver (one process per worker). A "sat"
@@ -647,8 +647,8 @@ func (p *pathCtx) crossCheck(neg *Term) bool {
 		w.cross = s
 	}
 	t := p.ex.cfg.AssertMs
-	if t > 120000 {
-		t = 120000
+	if t > 60000 {
+		t = 60000
 	}
 	t0 := time.Now()
 	r, msg := w.cross.OneShot(text, t)
